@@ -185,7 +185,12 @@ class Cfg:
         return hashlib.new(self.halgo).digest_size * 2
 
 
-def make_store(root, cfg=None, real_primitives=False, mp_mode=False):
+class ModeNotHonoured(RuntimeError):
+    """USE_MULTIPROCESSING=True was in the environment when the store was initialised and the store is not in
+    multiprocessing mode (or the other way round): the code under test ignored the setting (a verdict for C16)."""
+
+
+def make_store(root, cfg=None, real_primitives=False, mp_mode=False, mp_env=False):
     """A FileHashStore on `root`.  By default it is constructed over the scheduler-aware Lock / Condition
     shims (sched.py): semantics are unchanged for single-threaded use, but a call that would WAIT (on an
     identifier some earlier call left locked) raises sched.WouldBlockForever instead of hanging the harness."""
@@ -195,12 +200,29 @@ def make_store(root, cfg=None, real_primitives=False, mp_mode=False):
     if real_primitives:
         sched.set_mode("real")
         cold_module()      # primitives the module creates when it is executed (class-level locks) must be real ones, too
-        return hs().FileHashStore(cfg.props(root))
+        if not mp_env:
+            return hs().FileHashStore(cfg.props(root))
+        # the documented order: the module is imported, THEN the variable is set, then the store is initialised
+        old = os.environ.get("USE_MULTIPROCESSING")
+        os.environ["USE_MULTIPROCESSING"] = "True"
+        try:
+            store = hs().FileHashStore(cfg.props(root))
+        finally:
+            if old is None:
+                os.environ.pop("USE_MULTIPROCESSING", None)
+            else:
+                os.environ["USE_MULTIPROCESSING"] = old
+        if not bool(getattr(store, "use_multiprocessing", True)):
+            raise ModeNotHonoured("USE_MULTIPROCESSING=True was set before the store was initialised, the store runs in threading mode")
+        return store
     sched.set_mode("shim")
     with sched.shimmed_primitives(mp_mode=mp_mode):
         store = hs().FileHashStore(cfg.props(root))
     if bool(getattr(store, "use_multiprocessing", mp_mode)) != bool(mp_mode):
-        raise RuntimeError(f"harness: store built with use_multiprocessing={store.use_multiprocessing}, wanted {mp_mode}")
+        # (sched.shimmed_primitives sets / clears the variable around the constructor - checked by tools/selftest.py on the
+        # pinned tree; a mismatch here means the code under test did not look at the environment when it was initialised)
+        raise ModeNotHonoured(f"USE_MULTIPROCESSING={'True' if mp_mode else 'unset'} when the store was initialised, the store reports "
+                              f"use_multiprocessing={store.use_multiprocessing}")
     return store
 
 
